@@ -500,7 +500,7 @@ impl RecordBuf {
         self.alignment_start()
             .and_then(|start| match self.alignment_span() {
                 Some(span) => {
-                    let end = usize::from(start) + span - 1;
+                    let end = (usize::from(start) - 1).saturating_add(span);
                     Position::new(end)
                 }
                 None => Some(start),
